@@ -153,7 +153,7 @@ def tlc(spec_dir, module, cfg, work, env=None, workers=8, simulate=None, depth=N
     if m:
         r.depth = int(m.group(1))
     # coverage lines: <Action line 12, col 1 to line 20, col 30 of module X>: 12:34
-    for m in re.finditer(r"^<(\w+) line \d+, col \d+ to line \d+, col \d+ of module (\w+)>: (\d+):(\d+)", out, re.M):
+    for m in re.finditer(r"^<(\w+) line \d+, col \d+ to line \d+, col \d+ of module (\w+)(?: \([\d ]+\))?>: (\d+):(\d+)", out, re.M):
         r.coverage[m.group(1)] = (int(m.group(3)), int(m.group(4)))
     r.printed = [ln for ln in out.splitlines() if ln.startswith("<<\"") or ln.startswith("\"")]
     m = re.search(r"Error: Invariant (\w+) is violated", out)
